@@ -666,6 +666,20 @@ func main() {
 		def("mux_run_closes_dropped", "bool", coqBool(closes), "mux_broker.go Run: the default branch of the park select closes the stream")
 	}
 
+	// ---- GRPCBroker.DialWithOptions: does the timeout branch of the wait delete a map entry?
+	if d := findFunc(grpcb, "GRPCBroker", "DialWithOptions"); d != nil {
+		deletes := false
+		ast.Inspect(d, func(n ast.Node) bool {
+			if ce, ok := n.(*ast.CallExpr); ok {
+				if id, ok := ce.Fun.(*ast.Ident); ok && id.Name == "delete" {
+					deletes = true
+				}
+			}
+			return true
+		})
+		def("grpc_dial_timeout_deletes", "bool", coqBool(deletes), "grpc_broker.go DialWithOptions: contains a delete(...) of a pending entry")
+	}
+
 	// ---- GRPCBroker.Accept (mux): is the listener registered before the knock goroutine is started?
 	acc := findFunc(grpcb, "GRPCBroker", "Accept")
 	if acc == nil {
